@@ -20,6 +20,28 @@ Flow (DESIGN.md section 5, C03; spec/RTransform.tla + spec/ExprX.tla):
     values: the spec trees evaluated at the exact binary inputs (vf/expr_eval.py, 50 digits);
     step 2(a) ties that evaluator to the rationals TLC printed.
 
+Second layer (spec/RTransformAudit.tla, EXTENDS RTransform; one TLC run checks both layers):
+ 4. InverseRTransform as a class of its own: the role swap is an involution (ASSUME; the harness
+    replays InverseRTransform(InverseRTransform(tf)) against the trees of tf) and the wrapper's
+    forward map sends ITS domain ends to ITS codomain ends (InvEndImages, derived from EndPoints;
+    replayed on every lattice / random / audit parameter set, both trim settings).
+ 5. The audit lattice: extreme admissible parameters (negative rmin, length scales 1/1000 and
+    1000, integer-valued sets, modified-Handy sizes just above 2^m - 1, exponents 1/2 .. 21/2
+    through the symbolic trees) x interior points 2^-7 .. 2^-20 from the ends / far out on the
+    half line.  TLC decides the identities where 32 bits suffice (AVAL records, reproduced by the
+    evaluator), the harness decides all of them with unbounded integers / 150 digits and replays
+    the library there (conformance() as in 3, behind the guard usable_points()).
+ 6. Argument forms (0-d array, integer array for the maps of [0, inf), longdouble array,
+    descending array with duplicates, empty array, ONE array object handed to every method in
+    turn: never changed, first method repeated bit for bit) and constructor variants (keywords,
+    integer-typed parameters, exponent as float / numpy integer, trim_inf omitted = on): TLC
+    emits the catalogue with its applicability (FormArg as index sequences), the harness replays.
+ 7. The b-protocol of LinearInfinite / Exp / Power constructed without b (the default): TLC
+    explores the state machine (BCall; all call sequences of depth 2 / 3 over unsorted and scalar
+    arguments), checks BFrozen / BFromFirstCall / BAdmissible / BScalePoint and emits every
+    maximal behaviour; the harness replays each on the library: tf.b after every call and every
+    value under the model's b.
+
 Tolerance (vf/rtx.py): |obs - f| <= max(1e-9 |f|, 1e3 B), B = running-error bound of the spec
 tree (+ the error of the intermediate value for the methods computed through the other side of
 the map, + the running error of the equivalent inverse-function-theorem tree a_n / b_n).
@@ -50,6 +72,22 @@ values at zeros of a derivative) B was computed: largest err / max(1e-9 |f|, 1e3
 (quick tier, seeds 0, 1, 2: 2.8e-4, 2.0e-4, 2.4e-4), i.e. 3.5 orders of magnitude of slack.
 The 16 mutants of selftest() produce relative errors >= 2.4e-3 (7 orders of magnitude above the
 accepted errors of well-conditioned points); all are reported.
+
+Second layer (audit lattice, forms, variants, b-protocol): same judge, no new tolerance.  The only
+new constant is the guard RESOLVE = 1e-9 of usable_points(): an image r = F(x) is used as a
+codomain point only if a double-precision evaluation of the SPECIFICATION's inverse map resolves
+the distance of x from the ends to 1e-9 (running-error bound of the tree G at r <= 1e-9 * distance).
+Without the guard (first attempt, pinned tree): Knowles k = 8 at x = -1 + 2^-7 gives
+r - rmin = 1e-19 R, 1 - exp(-1e-19) = 0 in doubles, inverse(r) = -1 exactly and deriv_inverse
+raises ZeroDivisionError - float resolution, not a closed form; and the closest accepted
+observation was at err / tol = 0.077 (Handy m = 1, rmin = -2, R = 1/1000, r - rmin = 3e-8).
+With the guard, thorough audit lattice (100 parameter sets, 1.1e5 observations, pinned tree):
+largest err / tol = 9.7e-4 on the purely relative branch (err < 1e-12 |f|), 2.8e-4 where B was
+computed - the same margin as in the first layer.  The guard drops 4 to 9 of the 14 near-end
+codomain points for the steep maps (it keeps every forward-method point: D^n(F) within
+[1e-60, 1e60]); check() fails as machinery if a class is left without a near-end point.
+The 20 second-layer mutants of selftest() are run against the second layer only (families
+"audit" / "bproto") and are all reported; the 16 first-layer ones against the first layer.
 """
 
 _G = {}  # emission etc. for forked workers
@@ -58,12 +96,50 @@ _G = {}  # emission etc. for forked workers
 # ---------------------------------------------------------------------------------------------
 # TLC
 
+WORKERS = 8
+
+
+class Audit:
+    """What RTransformAudit.tla emitted: the audit lattice, the catalogue of argument forms and
+    constructor variants, the b-protocol behaviours, the end points of the inverse wrapper."""
+
+    def __init__(self, path, stdout):
+        with open(path) as f:
+            d = json.load(f)
+        self.inst = d["instances"]
+        for i in self.inst:
+            i["params"] = [rtx._env(e) for e in i["params"]]
+            i["points"] = [[Fraction(q[0], q[1]) for q in pts] for pts in i["points"]]
+        bp = d["bproto"]
+        self.bclasses = bp["classes"]
+        self.binst = bp["inst"]
+        self.bparams = [rtx._env(e) for e in bp["params"]]
+        self.bargs = [[Fraction(q[0], q[1]) for q in a] for a in bp["args"]]
+        self.bdepth = bp["depth"]
+        self.avals = {}
+        for t in rtx.tagged(stdout, "AVAL"):
+            _, j, p, q, fx, rest = t
+            self.avals[(j, p, q)] = [fx] + list(rest)
+        self.aends = {}
+        for t in rtx.tagged(stdout, "AEND"):
+            _, j, p, lo, hi, d_ = t
+            self.aends[(j, p)] = (lo, hi, d_)
+        self.iends = {}
+        for t in rtx.tagged(stdout, "IEND"):
+            _, j, p, c1, c2, i1, i2 = t
+            self.iends[(j, p)] = (c1, c2, i1, i2)
+        self.btraces = [(t[1], [(m, a, Fraction(b[0], b[1])) for m, a, b in t[2]]) for t in rtx.tagged(stdout, "BTRACE")]
+
+    def refisdom(self, j):
+        return bool(self.inst[j - 1]["refisdom"])
+
+
 def model(tier: str, wd):
-    cfg = "MC_RTransform_thorough.cfg" if tier == "thorough" else "MC_RTransform.cfg"
-    res = tlc.run_tlc("RTransform", cfg, wd, workers=16, timeout=1500).require_ok(cfg)
+    cfg = "MC_RTransformAudit_thorough.cfg" if tier == "thorough" else "MC_RTransformAudit.cfg"
+    res = tlc.run_tlc("RTransformAudit", cfg, wd, workers=WORKERS, timeout=1800).require_ok(cfg)
     if res.status == "violation":
         raise tlc.MachineryError(
-            f"RTransform.tla is not self-consistent: invariant(s) {res.violated} violated; last state {tlc.last_state(res)}")
+            f"RTransform.tla / RTransformAudit.tla is not self-consistent: {res.violated} violated; last state {tlc.last_state(res)}")
     em = rtx.Emission(wd / "rtransform_trees.json")
     vals = {}
     for t in rtx.tagged(res.stdout, "VAL"):
@@ -73,6 +149,7 @@ def model(tier: str, wd):
     for t in rtx.tagged(res.stdout, "END"):
         _, j, p, lo, hi, d = t
         ends[(j, p)] = (lo, hi, d)
+    em.audit = Audit(wd / "rtransform_audit.json", res.stdout)
     return res, em, vals, ends
 
 
@@ -93,6 +170,10 @@ class Out:
         self.max_ratio = 0.0
         self.max_ratio_budget = 0.0
         self.worst = None
+        self.hot = []       # accepted observations closer than 1e-4 to their tolerance (calibration)
+        self.edge_kept = 0
+        self.edge_kept_r = 0
+        self.edge_dropped = 0
 
 
 TREE_ORDER = ("F", "d1", "d2", "d3", "g1", "g2", "g3")
@@ -126,11 +207,11 @@ def _same(a, b, scale=1):
     return abs(a - b) <= mp.mpf(10) ** -35 * max(1, abs(a), abs(b), scale)
 
 
-def spec_checks(out: Out, inst, env, pts, vals, pidx, symbolic_env=None):
+def spec_checks(out: Out, inst, env, pts, vals, pidx, symbolic_env=None, force_mp=False):
     """(a) evaluator reproduces TLC's exact values; (b) identities with unbounded integers."""
     T = inst.trees
     e0 = dict(env if symbolic_env is None else symbolic_env)
-    exact = symbolic_env is None
+    exact = symbolic_env is None and not force_mp
     prevF = None
     direction = None
     for q, x in enumerate(pts, start=1):
@@ -192,6 +273,8 @@ def _cmp(out: Out, inst, key_base, what, obs, tree, tenv, var, case, route=None)
     ok, fexp, err, tol, ratio = j
     out.n += 1
     if ok:
+        if ratio > 1e-4 and len(out.hot) < 200:
+            out.hot.append((ratio, what))
         if ratio > out.max_ratio:
             out.max_ratio = ratio
             out.worst = {"what": what, "observed": float(obs), "expected": fexp, "err": err, "tol": tol}
@@ -223,8 +306,9 @@ def _scalar(res):
     return a
 
 
-def conformance(out: Out, inst, fenv, expo, xs, tier, tag, direction, endinfo=None, scalars=True):
-    """Replay the library on one parameter set.  fenv: floats; xs: ascending float interior points."""
+def conformance(out: Out, inst, fenv, expo, xs, tier, tag, direction, endinfo=None, scalars=True, rkeep=None):
+    """Replay the library on one parameter set.  fenv: floats; xs: ascending float interior points.
+    rkeep (audit lattice): mask of the points whose image may be used as a codomain point."""
     from grid.rtransform import InverseRTransform
     T = inst.trees
     names_p = [n for n in inst.pnames if n in fenv]
@@ -244,7 +328,12 @@ def conformance(out: Out, inst, fenv, expo, xs, tier, tag, direction, endinfo=No
         return
     rs = np.array([float(v) for v in fx])
     xs = np.asarray(xs, dtype=float)
-    chunk = rtx.hyper_chunk(fenv["b"]) if inst.cls == "Hyperbolic" else len(xs)
+    rs_all = rs
+    xs_r = xs
+    if rkeep is not None:
+        rk = np.asarray(rkeep, dtype=bool)
+        xs_r, rs = xs[rk], rs[rk]
+    chunk = rtx.hyper_chunk(fenv["b"]) if inst.cls == "Hyperbolic" else max(len(xs), 1)
 
     def chunks(a):
         return [a[i:i + chunk] for i in range(0, len(a), chunk)]
@@ -262,7 +351,7 @@ def conformance(out: Out, inst, fenv, expo, xs, tier, tag, direction, endinfo=No
         # roles: (object, key prefix, trees, decl, points for x-methods, points for r-methods, x-var values)
         roles = [(tf, lbl, T, inst.decl, xs, rs)]
         if inv is not None:
-            roles.append((inv, f"InverseRTransform({lbl})", inst.inv_trees, inst.inv_decl, rs, xs))
+            roles.append((inv, f"InverseRTransform({lbl})", inst.inv_trees, inst.inv_decl, rs, xs_r))
         for obj, pre, trees, decl, px, pr in roles:
             case0 = dict(base_case, trim_inf=trim, object=pre)
             # domain / codomain
@@ -340,13 +429,20 @@ def conformance(out: Out, inst, fenv, expo, xs, tier, tag, direction, endinfo=No
             if exc is None:
                 a = _as1d(res, len(xs))
                 out.n += 1
-                if a is not None and not np.all(np.diff(a) * direction > 0):
+                if a is not None and rkeep is not None:
+                    # audit lattice: strictly monotone where the images are resolvable floats,
+                    # never decreasing (in the derived direction) anywhere
+                    if not (np.all(np.diff(a[rk]) * direction > 0) and np.all(np.diff(a) * direction >= 0)):
+                        out.viol.append((f"{lbl}.transform{esfx}:not-monotone", f"transform is not {'increasing' if direction > 0 else 'decreasing'} on {xs.tolist()} (strictly on {xs[rk].tolist()}): {a.tolist()}", dict(base_case, trim_inf=trim)))
+                elif a is not None and not np.all(np.diff(a) * direction > 0):
                     out.viol.append((f"{lbl}.transform{esfx}:not-monotone", f"transform is not strictly {'increasing' if direction > 0 else 'decreasing'} on {xs.tolist()}: {a.tolist()}", dict(base_case, trim_inf=trim)))
         # reference end points -> codomain end points, infinity trimmed
         if endinfo is not None:
             _endpoints(out, inst, tf, lbl, esfx, fenv, tenv_p, expo, trim, endinfo, base_case)
+            if inv is not None and endinfo[1] in (1, -1) and _G.get("em") is not None and _G["em"].audit.refisdom(inst.idx):
+                _inv_endpoints(out, inst, inv, lbl, esfx, tenv_p, endinfo[1], base_case, trim)
     if len(out.samples) < 2:
-        out.samples.append({"class": lbl, "exponent": expo, "params": fenv, "points": xs[:3].tolist(), "codomain_points": rs[:3].tolist(), "tag": tag})
+        out.samples.append({"class": lbl, "exponent": expo, "params": fenv, "points": xs[:3].tolist(), "codomain_points": rs_all[:3].tolist(), "tag": tag})
 
 
 def _endpoints(out, inst, tf, lbl, esfx, fenv, tenv_p, expo, trim, endinfo, base_case):
@@ -376,6 +472,410 @@ def _endpoints(out, inst, tf, lbl, esfx, fenv, tenv_p, expo, trim, endinfo, base
             if not ok:
                 out.viol.append((f"{lbl}.transform{esfx}:endpoint:value",
                                  f"reference end point {pf!r} must go to the codomain end {wf!r} (trim_inf={trim}); transform returned {a.tolist()} for params {fenv}, exponent {expo}", dict(case, observed=a.tolist(), expected=wf)))
+
+
+# ---------------------------------------------------------------------------------------------
+# second layer (spec/RTransformAudit.tla): inverse wrapper, argument forms, constructor variants,
+# audit lattice, b-protocol
+
+def _route(is_tf, var, meth, trees, tname):
+    """How the library reaches a method (for the error budget): see conformance()."""
+    if var == "r" and meth != "inverse":
+        alt = trees["a" + tname[-1]]
+        return ("via", trees["G"], alt, "x") if is_tf else ("roundtrip", trees["G"], trees["F"], alt, "x")
+    if var == "x" and meth != "transform" and not is_tf:
+        return ("via", trees["F"], trees["b" + tname[-1]], "r")
+    return None
+
+
+class Expect:
+    """Spec-tree values at the points of one parameter set, evaluated once."""
+
+    def __init__(self, tenv_p):
+        self.tenv_p = tenv_p
+        self.c = {}
+
+    def env(self, var, p):
+        return dict(self.tenv_p, **{var: rtx._mpf(p)})
+
+    def get(self, tree, var, p):
+        k = (id(tree), var, float(p))
+        if k not in self.c:
+            self.c[k] = ev(tree, self.env(var, p))
+        return self.c[k]
+
+
+def _cmpx(out: Out, keyb, what, obs, ex: Expect, tree, var, p, route, case):
+    """_cmp with a cached expected value."""
+    exp = ex.get(tree, var, p)
+    if exp is None:
+        out.mach.append(f"{keyb}: spec tree singular for {case}")
+        return
+    tenv = ex.env(var, p)
+    ok, fexp, err, tol, ratio = rtx.judge_value(obs, exp, lambda: rtx.error_budget(tree, tenv, var, route))
+    out.n += 1
+    if ok:
+        if ratio > 1e-4 and len(out.hot) < 200:
+            out.hot.append((ratio, what))
+        if ratio > out.max_ratio:
+            out.max_ratio = ratio
+            out.worst = {"what": what, "observed": float(obs), "expected": fexp, "err": err, "tol": tol}
+        if err > 1e-3 * rtx.RTOL * abs(fexp):
+            out.cond_used += 1
+            out.max_ratio_budget = max(out.max_ratio_budget, ratio)
+        return
+    kind = "nan" if isinstance(obs, float) and math.isnan(obs) else "value"
+    c = dict(case)
+    c.update(observed=float(obs), expected=fexp, abs_err=err, tolerance=tol, layer="audit")
+    c.pop("point", None)
+    out.viol.append((f"{keyb}:{kind}", f"{what}: observed {float(obs)!r}, specification {fexp!r} (|err| {err:.3g} > tol {tol:.3g})", c))
+
+
+def _inv_endpoints(out, inst, inv, lbl, esfx, tenv_p, direction, base_case, trim):
+    """InverseRTransform(tf) is a transform class of its own: its forward map (G) sends its domain
+    ends (the codomain ends of tf) to its codomain ends.  Expected images: RTransformAudit!InvEndImages
+    (the reference end points of tf in the order given by the direction)."""
+    cods = [ev(t, tenv_p) for t in inst.decl["cod"]]
+    refs = [ev(t, tenv_p) for t in inst.decl["ref"]]
+    want = refs if direction > 0 else refs[::-1]
+    pre = f"InverseRTransform({lbl})"
+    for which, (c, w) in enumerate(zip(cods, want)):
+        cf, wf = float(c), float(w)
+        for mname, arg in (("numpy-scalar", np.float64(cf)), ("array", np.array([cf]))):
+            res, exc = rtx.call(inv.transform, arg)
+            out.n += 1
+            out.keys.add((pre + esfx, "endpoint", str(base_case.get("tag")), which, mname))
+            case = dict(base_case, trim_inf=trim, object=pre, end_point=cf, mode=mname, layer="audit")
+            keyb = f"{pre}.transform{esfx}:endpoint(r={cf!r})"
+            if exc is not None:
+                out.viol.append((f"{keyb}:exception", f"transform({cf!r}) raised {type(exc).__name__}: {exc}", case))
+                continue
+            a = _scalar(res)
+            ok = a.size == 1 and rtx.judge_value(float(a[0]), rtx._mpf(wf))[0]
+            if not ok:
+                kind = "nan" if a.size == 1 and math.isnan(float(a[0])) else "value"
+                out.viol.append((f"{keyb}:{kind}",
+                                 f"the domain end {cf!r} of {pre} must go to its codomain end {wf!r}; transform returned {a.tolist()} "
+                                 f"for params {base_case.get('params')}, exponent {base_case.get('exponent')}", dict(case, observed=a.tolist(), expected=wf)))
+
+
+def usable_points(inst, tenv_p, xs):
+    """Guard of the audit lattice (points 2^-7 .. 2^-20 from an end, extreme scales).  Two masks:
+    keepx - the forward methods are judged at x: F(x) is finite and D(F), D2(F), D3(F) there are
+            inside [1e-60, 1e60];
+    keepr - the image r = F(x), rounded to a float, may serve as a codomain point (everything that
+            goes through inverse(r)): r is strictly inside the codomain, the derivatives of G there
+            are inside [1e-60, 1e60] (the inverse-function formulas take fifth powers), the exact
+            pre-image of the rounded r is x up to 1e-3 of its distance from the ends, and a
+            double-precision evaluation of the specification's own G resolves that distance
+            (running-error bound of G at r <= RESOLVE * distance).
+    Everything else would test float overflow and the resolution of r next to rmin (1 - exp(-u)
+    for u below 1e-16 is 0 in any straightforward implementation), not the closed forms."""
+    T = inst.trees
+    lo, hi = (ev(t, tenv_p) for t in inst.decl["use"])
+    clo, chi = (float(ev(t, tenv_p)) for t in inst.decl["cod"])
+    small, big = mp.mpf("1e-60"), mp.mpf("1e60")
+    keepx, keepr = [], []
+
+    def inrange(trees_env):
+        for k, ee in trees_env:
+            v = ev(T[k], ee)
+            if v is None or (v != 0 and not (small < abs(v) < big)):
+                return False
+        return True
+
+    for x in xs:
+        xm = rtx._mpf(x)
+        e = dict(tenv_p, x=xm)
+        fx = ev(T["F"], e)
+        okx = fx is not None and not mp.isinf(fx) and inrange((("d1", e), ("d2", e), ("d3", e)))
+        okr = False
+        if okx:
+            r = float(fx)
+            okr = clo < r < chi and not math.isinf(r)
+        if okr:
+            er = dict(tenv_p, r=rtx._mpf(r))
+            back = ev(T["G"], er)
+            dist = xm - lo if mp.isinf(hi) else min(xm - lo, hi - xm)
+            okr = back is not None and abs(back - xm) <= mp.mpf("1e-3") * dist and inrange((("g1", er), ("g2", er), ("g3", er)))
+            if okr:
+                re_ = rtx.running_error(T["G"], er)
+                okr = re_ is not None and re_[1] <= RESOLVE * dist
+        keepx.append(bool(okx))
+        keepr.append(bool(okr))
+    return keepx, keepr
+
+
+RESOLVE = 1e-9      # see CALIBRATION (audit lattice)
+
+
+def _objects(inst, fenv, expo):
+    from grid.rtransform import InverseRTransform
+    tf = rtx.make_tf(inst, fenv, expo, True if inst.trims else None)
+    return tf, InverseRTransform(tf)
+
+
+def forms_pass(out: Out, inst, fenv, expo, tenv_p, esfx, xs, rs, keepx, keepr, forms, tag):
+    """RTransformAudit!Forms: the value of a method at a point does not depend on the form in which
+    the point set is handed over.  xs / rs: the whole lattice (floats) and its images; keep: guard."""
+    lbl = LIB[inst.cls]
+    tf, inv = _objects(inst, fenv, expo)
+    ex = Expect(tenv_p)
+    chunk = rtx.hyper_chunk(fenv["b"]) if inst.cls == "Hyperbolic" else 10 ** 9
+    base = {"class": lbl, "params": fenv, "exponent": expo, "tag": tag, "layer": "audit"}
+    for obj, pre, trees, px, pr, is_tf in ((tf, lbl, inst.trees, xs, rs, True),
+                                            (inv, f"InverseRTransform({lbl})", inst.inv_trees, rs, xs, False)):
+        for group, var, pts, lattice_side in ((FWD, "x", px, is_tf), (INV, "r", pr, not is_tf)):
+            shared = None
+            for meth, tname in group:
+                tree = trees[tname]
+                fn = getattr(obj, meth)
+                route = _route(is_tf, var, meth, trees, tname)
+                # only the forward methods of the transform itself never go through inverse(r)
+                keep = keepx if (is_tf and var == "x") else keepr
+                for f in forms:
+                    if not f["applies"]:
+                        continue
+                    form = f["form"]
+                    idx = [i - 1 for i in f["arg"] if keep[i - 1]][:chunk]
+                    keyb = f"{pre}.{meth}{esfx}:form={form}"
+                    case = dict(base, object=pre, method=meth, form=form)
+                    out.keys.add((pre + esfx, meth, tag, form))
+                    if form == "empty":
+                        res, exc = rtx.call(fn, np.array([], dtype=float))
+                        out.n += 1
+                        if exc is not None:
+                            out.viol.append((f"{keyb}:exception", f"{meth}(empty array) raised {type(exc).__name__}: {exc}", case))
+                        elif np.shape(res) != (0,):
+                            out.viol.append((f"{keyb}:shape", f"{meth}(empty array) returned shape {np.shape(res)}", case))
+                        continue
+                    if not idx:
+                        continue
+                    if form == "zero-d":
+                        for i in idx:
+                            res, exc = rtx.call(fn, np.array(float(pts[i])))
+                            if exc is not None:
+                                out.viol.append((f"{keyb}:exception", f"{meth}(0-d array {pts[i]!r}) raised {type(exc).__name__}: {exc}", case))
+                                break
+                            a = _scalar(res)
+                            if a.size != 1:
+                                out.viol.append((f"{keyb}:shape", f"{meth}(0-d array) returned {a.size} values", case))
+                                break
+                            _cmpx(out, keyb, f"{pre}.{meth}({var}={pts[i]!r}) [0-d array], params {fenv}, exponent {expo}",
+                                  float(a[0]), ex, tree, var, pts[i], route, case)
+                        continue
+                    if form == "int-array":
+                        if not lattice_side:
+                            continue        # images of integer points are not integers
+                        arg = np.array([int(pts[i]) for i in idx], dtype=np.int64)
+                    elif form == "longdouble":
+                        arg = np.array([pts[i] for i in idx], dtype=np.longdouble)
+                    elif form == "reversed-dup":
+                        arg = np.array([pts[i] for i in idx], dtype=float)
+                    elif form == "shared-object":
+                        if shared is None:
+                            shared = (np.array([pts[i] for i in idx], dtype=float), [pts[i] for i in idx], None)
+                        arg = shared[0]
+                    else:
+                        out.mach.append(f"unknown form {form!r} in the audit catalogue")
+                        continue
+                    res, exc = rtx.call(fn, arg)
+                    if exc is not None:
+                        out.viol.append((f"{keyb}:exception", f"{meth}({form} of {len(idx)} points, dtype {arg.dtype}) raised {type(exc).__name__}: {exc}", case))
+                        continue
+                    a = _as1d(res, len(idx))
+                    if a is None:
+                        out.viol.append((f"{keyb}:shape", f"{meth}({form} of {len(idx)} points) returned shape {np.shape(res)}", case))
+                        continue
+                    for i, o in zip(idx, a.tolist()):
+                        _cmpx(out, keyb, f"{pre}.{meth}({var}={pts[i]!r}) [{form}], params {fenv}, exponent {expo}",
+                              o, ex, tree, var, pts[i], route, case)
+                    if form == "shared-object":
+                        # the same array object goes to every method of the group: it must come back unchanged
+                        out.n += 1
+                        if not np.array_equal(arg, np.array(shared[1], dtype=float)):
+                            out.viol.append((f"{keyb}:mutated", f"{meth} changed its argument array in place: {shared[1]} -> {arg.tolist()}", case))
+                            shared = None
+                            continue
+                        if meth == group[0][0]:
+                            shared = (shared[0], shared[1], a.copy())
+            # ... and the first method again after the others: same values, bit for bit
+            if shared is not None and shared[2] is not None:
+                meth = group[0][0]
+                res, exc = rtx.call(getattr(obj, meth), shared[0])
+                out.n += 1
+                a = None if exc is not None else _as1d(res, len(shared[1]))
+                if a is None or not np.array_equal(a, shared[2], equal_nan=True):
+                    out.viol.append((f"{pre}.{meth}{esfx}:form=shared-object:repeat",
+                                     f"{meth} called again with the same array after the other methods returned {None if a is None else a.tolist()} "
+                                     f"(exception {exc!r}), first call {shared[2].tolist()}", dict(base, object=pre, method=meth, form="shared-object")))
+
+
+KWNAMES = {"Becke": ("rmin", "R"), "MultiExp": ("rmin", "R"), "LinearFinite": ("rmin", "rmax"),
+           "LinearInfinite": ("rmin", "rmax", "b"), "Exp": ("rmin", "rmax", "b"), "Power": ("rmin", "rmax", "b"),
+           "Hyperbolic": ("a", "b"), "Knowles": ("rmin", "R"), "Handy": ("rmin", "R"), "HandyMod": ("rmin", "rmax")}
+
+
+def variants_pass(out: Out, inst, fenv, expo, tenv_p, esfx, xs, rs, keepx, keepr, variants, direction, trim_value, tag):
+    """RTransformAudit!Variants: the same transform reached through another constructor call."""
+    import grid.rtransform as rt
+    from grid.rtransform import InverseRTransform
+    lbl = LIB[inst.cls]
+    C = getattr(rt, lbl)
+    ex = Expect(tenv_p)
+    chunk = rtx.hyper_chunk(fenv["b"]) if inst.cls == "Hyperbolic" else 10 ** 9
+    idx_x = [i for i in range(len(xs)) if keepx[i]][:chunk]
+    idx_r = [i for i in range(len(xs)) if keepr[i]][:chunk]
+    base = {"class": lbl, "params": fenv, "exponent": expo, "tag": tag, "layer": "audit"}
+    trim = True if inst.trims else None
+    for v in variants:
+        if not v["applies"]:
+            continue
+        name = v["variant"]
+        trees, is_tf, pre = inst.trees, True, lbl
+        if name == "keywords":
+            kw = {n: fenv[n] for n in KWNAMES[inst.cls]}
+            if inst.ename:
+                kw[inst.ename] = expo
+            if inst.trims:
+                kw["trim_inf"] = True
+            obj, exc = rtx.call(lambda: C(**kw))
+        elif name == "int-params":
+            obj, exc = rtx.call(rtx.make_tf, inst, {k: int(x) for k, x in fenv.items()}, expo, trim)
+        elif name == "exponent-float":
+            obj, exc = rtx.call(rtx.make_tf, inst, fenv, float(expo), trim)
+        elif name == "exponent-npint":
+            obj, exc = rtx.call(rtx.make_tf, inst, fenv, np.int64(expo), trim)
+        elif name == "trim-default":
+            obj, exc = rtx.call(rtx.make_tf, inst, fenv, expo, None)
+        elif name == "double-inverse":
+            obj, exc = rtx.call(lambda: InverseRTransform(InverseRTransform(rtx.make_tf(inst, fenv, expo, trim))))
+            is_tf, pre = False, f"InverseRTransform(InverseRTransform({lbl}))"
+        else:
+            out.mach.append(f"unknown constructor variant {name!r} in the audit catalogue")
+            continue
+        case = dict(base, variant=name, object=pre)
+        keyv = f"{pre}{esfx}:variant={name}"
+        out.keys.add((pre + esfx, "variant", tag, name))
+        if exc is not None:
+            out.viol.append((f"{keyv}:constructor:exception", f"constructor variant {name} raised {type(exc).__name__}: {exc} for admissible parameters {fenv}, exponent {expo!r}", case))
+            continue
+        if name == "trim-default":
+            # omitted trim_inf means trimming ON (the documented default): infinite end point images are 1e16
+            out.n += 1
+            if getattr(obj, "trim_inf", None) is not True:
+                out.viol.append((f"{keyv}:flag", f"trim_inf of a default-constructed {lbl} is {getattr(obj, 'trim_inf', None)!r}", case))
+            _endpoints(out, inst, obj, lbl, esfx + ":variant=trim-default", fenv, tenv_p, expo, True, (trim_value, direction), dict(base, variant=name))
+            continue
+        if name == "double-inverse":
+            for attr in ("domain", "codomain"):
+                val, exc = rtx.call(getattr, obj, attr)
+                want = [ev(t, tenv_p) for t in inst.decl["dom" if attr == "domain" else "cod"]]
+                out.n += 1
+                good = exc is None
+                if good:
+                    try:
+                        good = len(val) == 2 and all(rtx.judge_value(float(a), w)[0] for a, w in zip(val, want))
+                    except Exception:  # noqa: BLE001
+                        good = False
+                if not good:
+                    out.viol.append((f"{keyv}.{attr}:value", f"{attr} is {val!r} (exception {exc!r}), specification {[float(w) for w in want]}", case))
+        for group, var, pts in ((FWD, "x", xs), (INV, "r", rs)):
+            for meth, tname in group:
+                tree = trees[tname]
+                keyb = f"{keyv}.{meth}"
+                idx = idx_x if (var == "x" and name != "double-inverse") else idx_r
+                if not idx:
+                    continue
+                res, exc = rtx.call(getattr(obj, meth), np.array([pts[i] for i in idx], dtype=float))
+                if exc is not None:
+                    out.viol.append((f"{keyb}:exception", f"{meth}(array of {len(idx)} interior points) raised {type(exc).__name__}: {exc}", dict(case, method=meth)))
+                    continue
+                a = _as1d(res, len(idx))
+                if a is None:
+                    out.viol.append((f"{keyb}:shape", f"{meth}(array of {len(idx)}) returned shape {np.shape(res)}", dict(case, method=meth)))
+                    continue
+                if name == "double-inverse":
+                    # everything but transform / inverse goes through both maps first
+                    if var == "x":
+                        route = None if meth == "transform" else ("roundtrip", inst.trees["F"], inst.inv_trees["F"], inst.trees["b" + tname[-1]], "r")
+                    else:
+                        route = None if meth == "inverse" else ("roundtrip", inst.trees["G"], inst.trees["F"], inst.trees["a" + tname[-1]], "x")
+                else:
+                    route = _route(True, var, meth, trees, tname)
+                for i, o in zip(idx, a.tolist()):
+                    _cmpx(out, keyb, f"{pre}.{meth}({var}={pts[i]!r}) [variant {name}], params {fenv}, exponent {expo!r}",
+                          o, ex, tree, var, pts[i], route, dict(case, method=meth))
+
+
+def bproto_replay(out: Out, em, cidx, hist, explicit_none):
+    """Replay one behaviour of the b-protocol machine (RTransformAudit!BCall) on the library:
+    after every call tf.b is the model's b, every value is the tree value under that b."""
+    import grid.rtransform as rt
+    aud = em.audit
+    inst = em.instances[aud.binst[cidx - 1] - 1]
+    lbl = LIB[inst.cls]
+    fenv = rtx.float_env(aud.bparams[cidx - 1])
+    C = getattr(rt, lbl)
+    tf, exc = rtx.call(lambda: C(fenv["rmin"], fenv["rmax"], b=None) if explicit_none else C(fenv["rmin"], fenv["rmax"]))
+    base = {"class": lbl, "params": fenv, "layer": "audit", "behaviour": [(m, a) for m, a, _ in hist]}
+    if exc is not None:
+        out.viol.append((f"{lbl}:b-protocol:constructor:exception", f"{lbl}(rmin, rmax) without b raised {type(exc).__name__}: {exc}", base))
+        return
+    cache = _G.setdefault("bcache", {})
+    path = []
+    for meth, a, bq in hist:
+        path.append(f"{meth}[{a}]")
+        keyb = f"{lbl}:b-protocol:{'>'.join(path)}"
+        xsq = aud.bargs[a - 1]
+        env = dict(fenv, b=float(bq))
+        tenv_p = rtx.tree_env(env)
+        inverse_side = meth.endswith("inverse")
+        tname = dict(FWD + INV)[meth]
+        tree = inst.trees[tname]
+        var = "r" if inverse_side else "x"
+        pts = []
+        for x in xsq:
+            xf = float(x)
+            if inverse_side:
+                k = (cidx, bq, "F", xf)
+                if k not in cache:
+                    cache[k] = float(ev(inst.trees["F"], dict(tenv_p, x=rtx._mpf(xf))))
+                xf = cache[k]
+            pts.append(xf)
+        arg = np.float64(pts[0]) if len(pts) == 1 else np.array(pts, dtype=float)
+        res, exc = rtx.call(getattr(tf, meth), arg)
+        case = dict(base, method=meth, argument=pts, model_b=float(bq))
+        out.keys.add((lbl, "b-protocol", tuple(path)))
+        if exc is not None:
+            out.viol.append((f"{keyb}:exception", f"{meth}({pts}) in the behaviour {path} raised {type(exc).__name__}: {exc}", case))
+            return
+        a_ = _scalar(res)
+        if a_.size != len(pts):
+            out.viol.append((f"{keyb}:shape", f"{meth}({pts}) returned {a_.size} values", case))
+            return
+        out.n += 1
+        bobs = getattr(tf, "b", None)
+        if bobs is None or float(bobs) != float(bq):
+            out.viol.append((f"{keyb}:b", f"after {path} on {lbl}(rmin={fenv['rmin']}, rmax={fenv['rmax']}) constructed without b, tf.b is {bobs!r}; "
+                                          f"the protocol fixes b = {float(bq)} (largest point of the first transformed argument) for good", case))
+        route = _route(True, var, meth, inst.trees, tname)
+        for p, o in zip(pts, a_.tolist()):
+            k = (cidx, bq, tname, p)
+            if k not in cache:
+                cache[k] = ev(tree, dict(tenv_p, **{var: rtx._mpf(p)}))
+            exp = cache[k]
+            if exp is None:
+                out.mach.append(f"{keyb}: spec tree singular at {p}")
+                continue
+            tenv = dict(tenv_p, **{var: rtx._mpf(p)})
+            ok, fexp, err, tol, ratio = rtx.judge_value(o, exp, lambda: rtx.error_budget(tree, tenv, var, route))
+            out.n += 1
+            if ok:
+                out.max_ratio = max(out.max_ratio, ratio)
+            else:
+                out.viol.append((f"{keyb}:value", f"{meth}({var}={p!r}) in the behaviour {path}: observed {o!r}, specification {fexp!r} under b = {float(bq)} "
+                                                  f"(|err| {err:.3g} > tol {tol:.3g})", dict(case, observed=o, expected=fexp)))
 
 
 # ---------------------------------------------------------------------------------------------
@@ -478,9 +978,89 @@ def job_random(arg):
     return out
 
 
+def job_audit(arg):
+    """One parameter set of the audit lattice (RTransformAudit!AuditParams / AuditPoints)."""
+    j, p = arg
+    em, tier = _G["em"], _G["tier"]
+    aud = em.audit
+    inst = em.instances[j - 1]
+    ai = aud.inst[j - 1]
+    out = Out()
+    env = ai["params"][p - 1]
+    pts = ai["points"][p - 1]
+    symbolic = bool(inst.ename) and not inst.ip
+    # identities with unbounded integers / 150 digits (points 2^-20 from an end lose 30 digits and more)
+    with mp.workdps(150):
+        direction = spec_checks(out, inst, env, pts, aud.avals if ai["evaluable"] else None, p, force_mp=symbolic)
+    if ai["evaluable"]:
+        lo, hi, d = aud.aends.get((j, p), (None, None, 0))
+        if d not in (1, -1) or d != direction:
+            out.mach.append(f"{inst.label}: audit lattice: direction from TLC ({d}) and from the sign of D(F) ({direction}) differ, env={env}")
+    if direction not in (1, -1):
+        out.mach.append(f"{inst.label}: audit lattice: no direction for env={env}")
+        return out
+    expo = float(env[inst.ename]) if symbolic else (inst.ip if inst.ename else None)
+    if symbolic and float(expo).is_integer():
+        expo = int(expo)        # an integer exponent through the symbolic tree
+    fenv = {k: float(v) for k, v in env.items() if not (symbolic and k == inst.ename)}
+    tenv_p = rtx.tree_env(fenv)
+    if symbolic:
+        tenv_p[inst.ename] = rtx._mpf(expo)
+    xs = [float(x) for x in pts]
+    keepx, keepr = usable_points(inst, tenv_p, xs)
+    out.edge_kept = sum(1 for x, k in zip(pts, keepx) if k and _is_edge(inst, env, x))
+    out.edge_kept_r = sum(1 for x, k in zip(pts, keepr) if k and _is_edge(inst, env, x))
+    out.edge_dropped = sum(1 for x, k in zip(pts, keepr) if not k)
+    kept = [x for x, k in zip(xs, keepx) if k]
+    tag = f"audit:{p}"
+    if kept:
+        conformance(out, inst, fenv, expo, kept, tier, tag, direction, endinfo=(em.trim, direction), scalars=(p == 1),
+                    rkeep=[r for r, k in zip(keepr, keepx) if k])
+    rs = []
+    for x, k in zip(xs, keepx):
+        v = ev(inst.trees["F"], dict(tenv_p, x=rtx._mpf(x))) if k else None
+        rs.append(float(v) if v is not None else float("nan"))
+    lbl = LIB[inst.cls]
+    esfx = f":{inst.ename}={expo}" if inst.ename and float(expo).is_integer() else (f":{inst.ename}=non-integer" if inst.ename else "")
+    try:
+        forms_pass(out, inst, fenv, expo, tenv_p, esfx, xs, rs, keepx, keepr, ai["forms"][p - 1], tag)
+        variants_pass(out, inst, fenv, expo, tenv_p, esfx, xs, rs, keepx, keepr, ai["variants"][p - 1], direction, em.trim, tag)
+    except tlc.MachineryError:
+        raise
+    except Exception as e:  # noqa: BLE001 - a constructor that works in conformance() but not here
+        out.viol.append((f"{lbl}{esfx}:audit:exception", f"{type(e).__name__}: {e} for admissible parameters {fenv}", {"class": lbl, "params": fenv, "exponent": expo, "layer": "audit"}))
+    return out
+
+
+def _is_edge(inst, env, x):
+    """x is one of the points near an end of the domain of use (distance <= 2^-7 of its width) or far out."""
+    if inst.cls == "Hyperbolic":
+        t = x * env["b"]
+        return t >= Fraction(127, 128) or t <= Fraction(1, 1024)
+    if inst.decl["dom"][0].get("op") == "c" and str(inst.decl["dom"][0].get("n")) == "0":
+        return x >= 1000 or x <= Fraction(1, 1024)
+    return abs(x) >= Fraction(127, 128)
+
+
+def job_bproto(arg):
+    lo, hi = arg
+    em = _G["em"]
+    out = Out()
+    for n, (cidx, hist) in enumerate(em.audit.btraces[lo:hi], start=lo):
+        bproto_replay(out, em, cidx, hist, explicit_none=(n % 2 == 1))
+    if lo == 0 and em.audit.btraces:
+        cidx, hist = em.audit.btraces[0]
+        out.samples.append({"b-protocol": em.audit.bclasses[cidx - 1], "behaviour": [[m, a, float(b)] for m, a, b in hist]})
+    return out
+
+
 # ---------------------------------------------------------------------------------------------
 
-def check(rep: Report, tier: str, modelled) -> None:
+ALL_FAMILIES = ("lattice", "random", "audit", "bproto")
+
+
+def check(rep: Report, tier: str, modelled, families=ALL_FAMILIES) -> None:
+    """families: which job families run (selftest runs a mutant against the layer it is aimed at)."""
     res, em, vals, ends = modelled
     _G.update(em=em, vals=vals, ends=ends, tier=tier)
     jobs = [(i.idx, p) for i in em.instances for p in range(1, len(i.params) + 1)]
@@ -490,11 +1070,23 @@ def check(rep: Report, tier: str, modelled) -> None:
     for i in em.instances:
         for s in range(nrand):
             rjobs.append((i.idx, rep.seed * 1000003 + i.idx * 10007 + s, npts))
+    aud = em.audit
+    ajobs = [(j, p) for j, ai in enumerate(aud.inst, start=1) for p in range(1, len(ai["params"]) + 1)]
+    nb = len(aud.btraces)
+    step = max(1, (nb + 4 * WORKERS - 1) // (4 * WORKERS))
+    bjobs = [(i, min(i + step, nb)) for i in range(0, nb, step)]
+    _G.pop("bcache", None)
     import multiprocessing as mpc
     outs = []
-    with mpc.get_context("fork").Pool(16) as pool:
-        outs += pool.map(job_lattice, jobs, chunksize=1)
-        outs += pool.map(job_random, rjobs, chunksize=4)
+    with mpc.get_context("fork").Pool(WORKERS) as pool:
+        r1 = pool.map_async(job_lattice, jobs if "lattice" in families else [], chunksize=1)
+        r2 = pool.map_async(job_random, rjobs if "random" in families else [], chunksize=4)
+        r3 = pool.map_async(job_audit, ajobs if "audit" in families else [], chunksize=1)
+        r4 = pool.map_async(job_bproto, bjobs if "bproto" in families else [], chunksize=1)
+        outs += r1.get() + r2.get()
+        aouts = r3.get()
+        bouts = r4.get()
+        outs += aouts + bouts
     mach = [m for o in outs for m in o.mach]
     if mach:
         raise tlc.MachineryError("specification / evaluator inconsistency (not a verdict about the library):\n" + "\n".join(mach[:20]))
@@ -512,6 +1104,24 @@ def check(rep: Report, tier: str, modelled) -> None:
     for i in em.instances:
         if i.params and decided.get((i.idx, "F"), 0) == 0:
             raise tlc.MachineryError(f"vacuity: TLC decided no value of F for {i.label}")
+    # non-vacuity of the second layer
+    if nb == 0 or {c for c, _ in aud.btraces} != set(range(1, len(aud.bclasses) + 1)):
+        raise tlc.MachineryError("vacuity: TLC emitted no b-protocol behaviour for some b-scaled class")
+    if not any(any(m.endswith("inverse") for m, _, _ in h) for _, h in aud.btraces):
+        raise tlc.MachineryError("vacuity: no b-protocol behaviour calls an inverse-direction method")
+    if not any(len({a for _, a, _ in h}) > 1 for _, h in aud.btraces):
+        raise tlc.MachineryError("vacuity: no b-protocol behaviour changes the argument after b is fixed")
+    if not aud.iends or not any(t[1] == ["pinf"] for t in aud.iends.values()):
+        raise tlc.MachineryError("vacuity: no inverse-wrapper end point at infinity met by TLC")
+    edge_by_cls = {}
+    for (j, p), o in zip(ajobs, aouts):
+        c = em.instances[j - 1].cls
+        edge_by_cls[c] = edge_by_cls.get(c, 0) + o.edge_kept
+    if "audit" in families and any(edge_by_cls.get(c, 0) == 0 for c in LIB):
+        raise tlc.MachineryError(f"vacuity: no point near an end of the domain survived the guard for some class: {edge_by_cls}")
+    adecided = sum(1 for tv in aud.avals.values() for t in tv if t != [])
+    if adecided == 0:
+        raise tlc.MachineryError("vacuity: TLC decided no value on the audit lattice")
     keys = set()
     for o in outs:
         for v in o.viol:
@@ -526,6 +1136,12 @@ def check(rep: Report, tier: str, modelled) -> None:
     rep.set("tlc_values_undecided_32bit", sum(o.tlc_undecided for o in outs))
     rep.set("identities_rechecked_unbounded", sum(o.identities for o in outs))
     rep.set("tlc_decided_per_tree", {f"{em.instances[j - 1].label}:{t}": c for (j, t), c in sorted(decided.items())})
+    rep.set("audit_lattice_parameter_sets", len(ajobs))
+    rep.set("audit_lattice_tlc_values_decided", adecided)
+    rep.set("audit_edge_points_replayed_per_class", edge_by_cls)
+    rep.set("audit_points_dropped_by_guard", sum(o.edge_dropped for o in aouts))
+    rep.set("b_protocol_behaviours_replayed", nb)
+    rep.set("inverse_wrapper_end_point_blocks", len(aud.iends))
     rep.set("lattice_parameter_sets", len(jobs))
     rep.set("random_parameter_sets", len(rjobs))
     rep.set("float_observations", n)
@@ -535,17 +1151,19 @@ def check(rep: Report, tier: str, modelled) -> None:
     worst = sorted((o for o in outs if o.worst), key=lambda o: -o.max_ratio)[:3]
     rep.set("closest_accepted_observations", [dict(o.worst, ratio=o.max_ratio) for o in worst])
     rep.set("traces_validated_against_impl", n)
-    rep.set("rule", "one case = one float observation of a library method (8 methods, domain, codomain, end points, "
-                    "monotonicity; transform object or its InverseRTransform wrapper; array / NumPy scalar / Python float; "
-                    "trim_inf on/off) compared with the value of the tree TLC derived; distinct = distinct "
-                    "(object, method, parameter set, point index)")
+    rep.set("rule", "one case = one float observation of a library method (8 methods, domain, codomain, end points of the "
+                    "transform and of its inverse wrapper, monotonicity; transform object, its InverseRTransform wrapper or "
+                    "the wrapper of the wrapper; array / NumPy scalar / Python float / 0-d / integer / longdouble / "
+                    "descending / empty / shared array; constructor variants; trim_inf on/off/omitted; b given or fixed by "
+                    "the b-protocol) compared with the value of the tree TLC derived; distinct = distinct "
+                    "(object, method, parameter set, point index or form or variant or behaviour)")
 
 
 def run(tier: str) -> int:
     rep = Report(PROP, tier, "model_checking")
     wd = tlc.scratch(f"{PROP}-{tier}")
     modelled = model(tier, wd)
-    rep.tlc(modelled[0], "MC_RTransform" + ("_thorough" if tier == "thorough" else ""))
+    rep.tlc(modelled[0], "MC_RTransformAudit" + ("_thorough" if tier == "thorough" else ""))
     check(rep, tier, modelled)
     rep.set("exhaustive", False)
     rep.assume("vf/expr_eval.py (generic tree evaluator, 50-digit mpmath) is the trusted numeric component; it is "
@@ -568,10 +1186,13 @@ def replay(path: str) -> int:
     cls = next(k for k, n in LIB.items() if n == c.get("class"))
     expo = c.get("exponent")
     ip = int(expo) if expo is not None and float(expo).is_integer() else 0
-    inst = em.by(cls, ip if cls in ("Knowles", "Handy", "HandyMod") else 0)
+    try:
+        inst = em.by(cls, ip if cls in ("Knowles", "Handy", "HandyMod") else 0)
+    except KeyError:
+        inst = em.by(cls, 0)       # an integer exponent beyond the instantiated ones: symbolic tree
     out = Out()
     xs = [c["point"]] if "point" in c else ([c["end_point"]] if "end_point" in c else [])
-    if not xs or c.get("object", "").startswith("Inverse") or "end_point" in c:
+    if not xs or c.get("object", "").startswith("Inverse") or "end_point" in c or c.get("layer") == "audit":
         print("replay: re-running the quick tier")
         return run("quick")
     fenv = {k: float(x) for k, x in c["params"].items()}
@@ -590,9 +1211,15 @@ def replay(path: str) -> int:
 MUTANTS = {}
 
 
-def _mutant(name):
+MUTANT_FAMILIES = {}
+
+
+def _mutant(name, families=("lattice", "random")):
+    """families: the job families the mutant is run against in selftest - the first layer (lattice
+    and random parameter sets, as before) or the second one (audit lattice / b-protocol)."""
     def deco(f):
         MUTANTS[name] = f
+        MUTANT_FAMILIES[name] = tuple(families)
         return f
     return deco
 
@@ -748,6 +1375,212 @@ def _m16(rt):
     rt.InverseRTransform.deriv2 = bad
 
 
+# ---- mutants of the second layer (RTransformAudit.tla) ------------------------------------------
+
+@_mutant("b-protocol: b taken from the LAST point of the first argument instead of the largest", families=("bproto",))
+def _m17(rt):
+    def bad(self, x):
+        if self.b is None:
+            self._b = np.asarray(x).reshape(-1)[-1]
+    for c in (rt.LinearInfiniteRTransform, rt.ExpRTransform, rt.PowerRTransform):
+        c.set_maximum_parameter_b = bad
+
+
+@_mutant("b-protocol: Power re-infers b at every call when it was not given to the constructor", families=("bproto",))
+def _m18(rt):
+    orig = rt.PowerRTransform.__init__
+
+    def init(self, rmin, rmax, b=None):
+        orig(self, rmin, rmax, b)
+        self._b_given = b is not None
+
+    def bad(self, x):
+        if not self._b_given:
+            self._b = np.max(x)
+    rt.PowerRTransform.__init__ = init
+    rt.PowerRTransform.set_maximum_parameter_b = bad
+
+
+@_mutant("b-protocol: Exp.inverse forgets the fixed b (sets it from its own argument)", families=("bproto",))
+def _m19(rt):
+    def bad(self, r):
+        b = np.max(r)
+        alpha = np.log(self._rmax / self._rmin) / b
+        return np.log(r / self._rmin) / alpha
+    rt.ExpRTransform.inverse = bad
+
+
+@_mutant("inverse wrapper end point: HandyMod.inverse clips its radicand away from 0 (wrong only at r = rmin)", families=("audit",))
+def _m20(rt):
+    def bad(self, r):
+        two_m = 2 ** self._m
+        size_r = self._rmax - self._rmin
+        tmp_r = (r - self._rmin) * (size_r - two_m + 1) / ((r - self._rmin) * (size_r - two_m) + size_r)
+        return 2 * np.maximum(tmp_r, 1e-300) ** (1 / self._m) - 1 + (tmp_r <= 1e-300) * 1e-3
+    rt.HandyModRTransform.inverse = bad
+
+
+@_mutant("inverse wrapper end point: Knowles.inverse is nan at r = inf (inf - inf in the exponent)", families=("audit",))
+def _m21(rt):
+    orig = rt.KnowlesRTransform.inverse
+
+    def bad(self, r):
+        return np.where(np.isinf(r), np.nan, orig(self, r)) if isinstance(r, np.ndarray) else (np.float64("nan") if np.isinf(r) else orig(self, r))
+    rt.KnowlesRTransform.inverse = bad
+
+
+@_mutant("double wrapper: InverseRTransform unwraps a wrapped wrapper to its base transform", families=("audit",))
+def _m22(rt):
+    orig = rt.InverseRTransform.__init__
+
+    def init(self, transform):
+        orig(self, transform)
+        if isinstance(transform, rt.InverseRTransform):
+            self._tfm = transform._tfm
+    rt.InverseRTransform.__init__ = init
+
+
+@_mutant("argument form: Hyperbolic.deriv works in place on the array it is given", families=("audit",))
+def _m23(rt):
+    def bad(self, x):
+        if self._b * (x.size - 1) >= 1.0:
+            raise ValueError("b*(npoint-1) must be smaller than one.")
+        if isinstance(x, np.ndarray) and x.ndim == 1:
+            x *= -self._b
+            x += 1
+            np.reciprocal(x, out=x)
+        else:
+            x = 1.0 / (1 - self._b * x)
+        return self._a * x * x
+    rt.HyperbolicRTransform.deriv = bad
+
+
+@_mutant("argument form: LinearFinite.deriv2 sizes its result with len(x) (no len of a 0-d array)", families=("audit",))
+def _m24(rt):
+    from numbers import Number
+
+    def bad(self, x):
+        return np.array(0) if isinstance(x, Number) else np.zeros(len(x))
+    rt.LinearFiniteRTransform.deriv2 = bad
+
+
+@_mutant("argument form: LinearInfinite.transform keeps the dtype of an integer argument", families=("audit",))
+def _m25(rt):
+    def bad(self, x):
+        self.set_maximum_parameter_b(x)
+        alpha = (self._rmax - self._rmin) / self.b
+        res = alpha * x + self._rmin
+        return res.astype(x.dtype) if isinstance(x, np.ndarray) else res
+    rt.LinearInfiniteRTransform.transform = bad
+
+
+@_mutant("argument form: Exp.transform sorts its argument", families=("audit",))
+def _m26(rt):
+    def bad(self, x):
+        self.set_maximum_parameter_b(x)
+        alpha = np.log(self._rmax / self._rmin) / self.b
+        return self._rmin * np.exp(np.sort(x) * alpha)
+    rt.ExpRTransform.transform = bad
+
+
+@_mutant("argument form: Knowles.transform accepts float64 arrays only", families=("audit",))
+def _m27(rt):
+    orig = rt.KnowlesRTransform.transform
+
+    def bad(self, x):
+        if isinstance(x, np.ndarray) and x.dtype != np.float64:
+            raise TypeError("x must be a float64 array")
+        return orig(self, x)
+    rt.KnowlesRTransform.transform = bad
+
+
+@_mutant("argument form: LinearFinite.inverse rejects an empty array", families=("audit",))
+def _m28(rt):
+    orig = rt.LinearFiniteRTransform.inverse
+
+    def bad(self, r):
+        if np.size(r) == 0:
+            raise ValueError("empty array")
+        return orig(self, r)
+    rt.LinearFiniteRTransform.inverse = bad
+
+
+@_mutant("constructor variant: MultiExp trims only when asked to (default trim_inf=False)", families=("audit",))
+def _m29(rt):
+    orig = rt.MultiExpRTransform.__init__
+
+    def init(self, rmin, R, trim_inf=False):
+        orig(self, rmin, R, trim_inf)
+    rt.MultiExpRTransform.__init__ = init
+
+
+@_mutant("constructor variant: LinearFinite.transform halves the width with // for integer parameters", families=("audit",))
+def _m30(rt):
+    def bad(self, x):
+        w = self._rmax - self._rmin
+        half = w // 2 if isinstance(w, int) else w / 2
+        return (1 + x) * half + self._rmin
+    rt.LinearFiniteRTransform.transform = bad
+
+
+@_mutant("constructor variant: Knowles rejects an exponent that is not a Python int / float", families=("audit",))
+def _m31(rt):
+    orig = rt.KnowlesRTransform.__init__
+
+    def init(self, rmin, R, k, trim_inf=True):
+        if not isinstance(k, (int, float)):
+            raise TypeError("k must be a number")
+        orig(self, rmin, R, k, trim_inf)
+    rt.KnowlesRTransform.__init__ = init
+
+
+@_mutant("constructor variant: Handy takes its exponent under another keyword (m renamed)", families=("audit",))
+def _m32(rt):
+    orig = rt.HandyRTransform.__init__
+
+    def init(self, rmin, R, power, trim_inf=True):
+        orig(self, rmin, R, power, trim_inf)
+    rt.HandyRTransform.__init__ = init
+
+
+@_mutant("audit lattice: MultiExp.transform clamps the argument of its logarithm at 1e-4", families=("audit",))
+def _m33(rt):
+    def bad(self, x):
+        rf = -self._R * np.log(np.where((x + 1) / 2 > 0, np.maximum((x + 1) / 2, 1e-4), (x + 1) / 2)) + self._rmin
+        return self._convert_inf(rf) if self.trim_inf else rf
+    rt.MultiExpRTransform.transform = bad
+
+
+@_mutant("audit lattice: LinearInfinite refuses a negative rmin", families=("audit",))
+def _m34(rt):
+    orig = rt.LinearInfiniteRTransform.__init__
+
+    def init(self, rmin, rmax, b=None):
+        if rmin < 0:
+            raise ValueError("rmin must not be negative")
+        orig(self, rmin, rmax, b)
+    rt.LinearInfiniteRTransform.__init__ = init
+
+
+@_mutant("audit lattice: Handy.deriv2 trims every value above 1e12 (finite values are not infinity)", families=("audit",))
+def _m35(rt):
+    def bad(self, x):
+        dr = 4 * self._m * self._R * (self._m + x) * (1 + x) ** (self._m - 2) / (1 - x) ** (self._m + 2)
+        if self.trim_inf:
+            dr = np.minimum(dr, 1e12)
+        return dr
+    rt.HandyRTransform.deriv2 = bad
+
+
+@_mutant("audit lattice: Knowles.deriv3 wrong for k > 6 only (coefficient switched above the tested exponents)", families=("audit",))
+def _m36(rt):
+    orig = rt.KnowlesRTransform.deriv3
+
+    def bad(self, x):
+        return orig(self, x) * (1.01 if self._k > 6 else 1.0)
+    rt.KnowlesRTransform.deriv3 = bad
+
+
 def selftest(tier: str) -> int:
     """Apply each mutant in-process (never touches /repo) and require a violation."""
     import grid.rtransform as rt
@@ -756,11 +1589,14 @@ def selftest(tier: str) -> int:
     classes = [getattr(rt, c) for c in dir(rt) if isinstance(getattr(rt, c), type) and getattr(rt, c).__module__ == rt.__name__]
     saved = {c: dict(vars(c)) for c in classes}
     killed, missed = [], []
+    only = os.environ.get("C03_MUTANTS")
     for name, patch in MUTANTS.items():
+        if only and not any(name.startswith(o) for o in only.split("|")):
+            continue
         patch(rt)
         try:
             rep = Report(PROP, "quick", "model_checking")
-            check(rep, "quick", modelled)
+            check(rep, "quick", modelled, families=MUTANT_FAMILIES[name])
             new = [v for v in rep.violations if rep._match_known(v["key"]) is None]
         finally:
             for c, d in saved.items():
@@ -768,6 +1604,7 @@ def selftest(tier: str) -> int:
                     if vars(c).get(k) is not v:
                         setattr(c, k, v)
         (killed if new else missed).append(name)
-        print(f"selftest mutant {'KILLED' if new else 'MISSED'}: {name}" + (f"  [{len(new)} violations, e.g. {new[0]['key']}]" if new else ""))
-    print(f"selftest: {len(killed)}/{len(MUTANTS)} mutants killed")
+        print(f"selftest mutant {'KILLED' if new else 'MISSED'} [{'+'.join(MUTANT_FAMILIES[name])}]: {name}"
+              + (f"  [{len(new)} violations, e.g. {new[0]['key']}]" if new else ""), flush=True)
+    print(f"selftest: {len(killed)}/{len(killed) + len(missed)} mutants killed")
     return 0 if not missed else 1
